@@ -210,7 +210,7 @@ theorem covered_results (r : MethodRow) (h : r.cls = .covered ∨ r.cls = .memo)
   by_cases h1 : r.isMetaSelf = true
   · simp [h1] at h
   · simp only [h1, Bool.false_eq_true, if_false] at h
-    by_cases h2 : (!r.unknown.isEmpty || r.regRecv || r.results.isEmpty) = true
+    by_cases h2 : (!r.unknown.isEmpty || r.regRecv || r.results.isEmpty || !r.checkCalls.isEmpty) = true
     · simp [h2] at h
     · simp only [h2, Bool.false_eq_true, if_false] at h
       by_cases h3 : (!(r.results.all (fun x => x.covered false))) = true
